@@ -348,7 +348,8 @@ def replay_tcc(rep, h, res, op, layers_of):
 # ---- where the command-line layer is applied: commands::test::Args::run (bin crate) ---------------------------------------------
 
 def h_cli_layer(prog):
-    """`scrut test` with symbolic --combine-output / --no-combine-output / --keep-output-crlf / --no-keep-output-crlf / --timeout-seconds over a
+    """`scrut test` with symbolic --combine-output / --no-combine-output / --keep-output-crlf / --no-keep-output-crlf / --timeout-seconds
+    (and, as bystanders, --cram-compat / --keep-temporary-directories) over a
     document whose only test case has a fully symbolic inline configuration: what reaches the executor"""
     from props import c20
     from mir_exec import ENUMS, SymEnum as SE, deep_clone as dc
@@ -400,6 +401,10 @@ def h_cli_layer(prog):
         gorder = [n for n, _t in c20.struct_order(e2.REPO + "/src/bin/commands/root.rs", "GlobalSharedParameters", typed=True)]
         flags = {}
         for name in ("combine_output", "no_combine_output", "keep_output_crlf", "no_keep_output_crlf"):
+            flags[name] = ctx.sym_bool("cli_" + name)
+            g.fields[gorder.index(name)] = flags[name]
+        # flags that are no configuration layer: whatever they are, they must not change what a test case gets
+        for name in ("cram_compat", "keep_temporary_directories"):
             flags[name] = ctx.sym_bool("cli_" + name)
             g.fields[gorder.index(name)] = flags[name]
         # (a flag and its negation may both be given — the command line accepts that; then either value is "the command line's")
@@ -574,7 +579,7 @@ def cli_layer_native(inline, flags, pre=None, app=None):
         if app is not None:
             open(os.path.join(tmp, "app.md"), "w").write(block("q0", app))
         argv = [SCRUT_BIN, "test", "-r", "json", "d.md"]
-        for name in ("combine_output", "no_combine_output", "keep_output_crlf", "no_keep_output_crlf"):
+        for name in ("combine_output", "no_combine_output", "keep_output_crlf", "no_keep_output_crlf", "cram_compat", "keep_temporary_directories"):
             if flags.get(name):
                 argv.append("--" + name.replace("_", "-"))
         r = subprocess.run(argv, cwd=tmp, stdout=subprocess.PIPE, stderr=subprocess.PIPE, text=True, timeout=60)
@@ -591,8 +596,10 @@ def cli_layer_native(inline, flags, pre=None, app=None):
         cfg = cfgs.get(title)
         if cfg is None:
             return None, None, {"argv": argv[1:], "configs": cfgs}
-        want[title + ".output_stream"] = os_cli or [(inl.get("output_stream") or "Stdout").lower()]
-        want[title + ".keep_crlf"] = crlf_cli or [inl["keep_crlf"] if inl.get("keep_crlf") is not None else False]
+        # the format's defaults are the lowest layer: Markdown's, or Cram's under --cram-compat
+        fmt_stream, fmt_crlf = ("Combined", True) if flags.get("cram_compat") else ("Stdout", False)
+        want[title + ".output_stream"] = os_cli or [(inl.get("output_stream") or fmt_stream).lower()]
+        want[title + ".keep_crlf"] = crlf_cli or [inl["keep_crlf"] if inl.get("keep_crlf") is not None else fmt_crlf]
         got[title + ".output_stream"] = cfg.get("output_stream")
         got[title + ".keep_crlf"] = cfg.get("keep_crlf", False)
     return got, want, {"argv": argv[1:], "configs": cfgs}
@@ -611,6 +618,10 @@ def run_cli_layer(rep, tier):
         pre = tcc_to_json(r.ctx.notes["extra_layers"]["pre"], model)
         app = tcc_to_json(r.ctx.notes["extra_layers"]["app"], model)
         got, want, obs = cli_layer_native(inline, flags, pre, app)
+        if got is None and flags.get("cram_compat"):
+            # the single-script executor refuses test cases whose configurations differ: replay with the document's own configuration throughout
+            pre = app = inline
+            got, want, obs = cli_layer_native(inline, flags, pre, app)
         short = lambda d: {k: v for k, v in d.items() if v not in (None, [])}
         what = "inline configurations %s (own) / %s (prepend) / %s (append) with flags %s" % (short(inline), short(pre), short(app), [k for k, v in flags.items() if v])
         if got is not None and any(got[k] not in want[k] for k in got):
@@ -627,9 +638,11 @@ def run_cli_layer(rep, tier):
     # the observation channel itself: a few plain runs must show what the statement prescribes
     bad = 0
     rows = [({}, {}), ({"output_stream": "Stderr"}, {"combine_output": True}), ({"keep_crlf": True}, {"no_keep_output_crlf": True}),
-            ({"output_stream": "Combined", "keep_crlf": True}, {}), ({}, {"no_combine_output": True, "keep_output_crlf": True})]
+            ({"output_stream": "Combined", "keep_crlf": True}, {}), ({}, {"no_combine_output": True, "keep_output_crlf": True}),
+            ({"output_stream": "Stdout", "keep_crlf": False}, {"cram_compat": True}), ({}, {"cram_compat": True})]
     for inline, flags in rows:
-        got, want, obs = cli_layer_native(inline, flags, {"output_stream": "Stderr"}, {"keep_crlf": True})
+        others = (inline, inline) if flags.get("cram_compat") else ({"output_stream": "Stderr"}, {"keep_crlf": True})
+        got, want, obs = cli_layer_native(inline, flags, *others)
         if got is None or any(got[k] not in want[k] for k in got):
             bad += 1
             rep.violation("cli-layer:native", "`scrut test` with inline %s and flags %s runs the test case with %s, prescribed %s" % (inline, flags, got, want),
